@@ -345,6 +345,42 @@ def c_kinds(ctx, case):
                              refsem.outcome(lambda: dict(variants(True, w))[name](e, env), UNK), want)))
 
 
+@check("C02.registered")
+def c_registered(ctx, case):
+    """Which classes count as constants is what the public registry says NOW: a class is
+    registered (itself, or an abstract base of it), and from then on trees that hold its
+    instances as constants evaluate to the plain computation -- with every evaluator variant."""
+    which, shape = case
+    import numbers as abcs
+    from fractions import Fraction
+    regcls = {"exact": Fraction, "abstract": abcs.Rational}[which]
+    c, d = Fraction(3, 2), Fraction(-1, 3)
+    X, Y = p.Variable("x"), p.Variable("y")
+    e = [lambda: p.Sum((X, c)), lambda: p.Product((c, X, d)), lambda: p.Power(p.Sum((X, c)), 2),
+         lambda: p.Quotient(c, p.Sum((Y, d))), lambda: p.If(p.Comparison(X, "<", c), d, c),
+         lambda: p.Sum((p.Product((c, X)), p.Product((d, Y)), c)), lambda: p.Min((c, X, d)),
+         lambda: p.Call(p.Variable("f"), (c, X))][shape]()
+    p.register_constant_class(regcls)
+    try:
+        for xv, yv in ((2, 5), (Fraction(1, 3), Fraction(7, 2)), (-3, 1)):
+            env = G.base_env(xv, yv, 1)
+            want = refsem.outcome(lambda: refsem.ev(e, env), UNK)
+            for name, fn in variants(True):
+                if name == "evaluate_kw" and any(not isinstance(k, str) for k in env):
+                    continue
+                got = refsem.outcome(lambda: fn(e, env), UNK)
+                ctx.case(None)
+                ctx.count("registered_constant_evaluations")
+                if not _strict_same(got, want):
+                    ctx.fail("C02.registered", case, f"registered:{name}:{type(e).__name__}",
+                             f"after register_constant_class({regcls.__name__}): variant={name} "
+                             f"expr={G.src(e)} at x={xv}, y={yv}: got {short(got)}, the plain "
+                             f"computation gives {short(want)}")
+                    return
+    finally:
+        p.unregister_constant_class(regcls)
+
+
 def inject_fault(rng, e, kind):
     """Replace one leaf occurrence by a faulty node; returns new tree or None."""
     leaves = []
@@ -527,6 +563,11 @@ def workload(ctx):
                     ctx.count("kind_pairs")
                     ctx.run("C02.kinds", (e, env))
         ctx.set_exhaustive("(kind of number, kind of number) over 19 kinds")
+        for which in ("exact", "abstract"):
+            for shape in range(8):
+                if ctx.mine("registered"):
+                    ctx.case(("registered", which, shape), True, n=0)
+                    ctx.run("C02.registered", (which, shape))
         # ... and values whose product does not commute (matrices): operands in operand order
         from .c03 import Mat2
         for i in range(ctx.per_shard(ctx.pick(60, 600))):
@@ -610,6 +651,7 @@ def workload(ctx):
                 ctx.run("C02.reuse", ([t1, use[iu](t2)], env))
         for k, v in tr.handlers().items():
             ctx.count("handler:" + k, v)
+    ctx.floor("registered_constant_evaluations", 150)
     ctx.floor("typed_twin_cases", 100)
     ctx.floor("tuple_index_subscripts", 300)
     ctx.floor("variant:plain", 1000)
